@@ -239,3 +239,27 @@ def alias_of(fn, name, depth=0):
         else:
             break
     return name
+
+
+def blocks_of(fn):
+    """Every statement list of a function (bodies, else/finally arms, case
+    bodies), nested functions excluded."""
+    out = []
+
+    def visit(stmts):
+        out.append(stmts)
+        for s in stmts:
+            if isinstance(s, (ast.FunctionDef, ast.AsyncFunctionDef,
+                              ast.ClassDef)):
+                continue
+            for name in ('body', 'orelse', 'finalbody'):
+                sub = getattr(s, name, None)
+                if isinstance(sub, list) and sub and isinstance(
+                        sub[0], ast.stmt):
+                    visit(sub)
+            for h in getattr(s, 'handlers', []) or []:
+                visit(h.body)
+            for c in getattr(s, 'cases', []) or []:
+                visit(c.body)
+    visit(fn.body)
+    return out
